@@ -89,6 +89,9 @@ def _rt_of(ctx):
     return rt
 
 
+_ADDR = __import__("re").compile(r" at 0x[0-9a-fA-F]+")
+
+
 def canon(v):
     """Deterministic, hash-seed independent rendering of a value."""
     if isinstance(v, dict):
@@ -99,6 +102,9 @@ def canon(v):
         return repr(v)
     if isinstance(v, (set, frozenset)):
         return "set(" + ",".join(sorted(canon(x) for x in v)) + ")"
+    if type(v) is str and " at 0x" in v:
+        # a message quoting the default repr of an object: the address differs from process to process
+        return repr(_ADDR.sub(" at 0x?", v))
     if isinstance(v, (str, int, bool, type(None))) and type(v) in (str, int, bool, type(None)):
         return repr(v)
     try:
